@@ -988,7 +988,7 @@ class Exec:
         if res.stops:
             return res
         rets = res.rets
-        if len(rets) > 1 and all(not isinstance(v, tuple) or v == UNIT for _, v, _, _ in rets):
+        if len(rets) > 1 and all(((isinstance(v, (int, bool)) or is_sym(v)) and not isinstance(v, tuple)) or v == UNIT for _, v, _, _ in rets):
             conds = [z3bool(c) for c, _, _, _ in rets]
             val = rets[-1][1]
             for c, v, _, _ in reversed(rets[:-1]):
